@@ -241,17 +241,6 @@ def curve_c2s(ctx, n):
     return obs
 
 
-def run(ctx):
-    q = ctx.quick
-    r = ctx.mc('MC_Curve', 'MC_Curve_quick.cfg' if q else 'MC_Curve_thorough.cfg', coverage=False)
-    if r.generated != r.distinct or r.distinct % 2:
-        raise Machinery('MC_Curve: not every case was evaluated (%d generated, %d distinct)' % (r.generated, r.distinct))
-    curve_s2c(ctx, ctx.generate('MC_Curve', 'MC_Curve_gen_pt.cfg' if q else 'MC_Curve_gen_pt_wide.cfg'))
-    curve_s2c(ctx, ctx.generate('MC_Curve', 'MC_Curve_gen_forms.cfg' if q else 'MC_Curve_gen_forms_wide.cfg'), limit=3000 if q else None)
-    curve_c2s(ctx, 3000 if q else 40000)
-    ctx.exhaustive = False
-
-
 # ---------------------------------------------------------------------------------------------------
 # X03-b/c  df_roll_off
 # ---------------------------------------------------------------------------------------------------
@@ -292,10 +281,6 @@ def _roll_got(o, want):
 
 def _roll_compare(o, want):
     """plain == between the encoded observation and what TLC printed; the name of the first part that differs"""
-    if o['after']['data'] != o['data_before']:
-        return 'data_argument_changed'
-    if o['after']['chain'] != o['chain_before'] or o['after']['keys'] != o['keys_before']:
-        return 'chain_argument_changed'
     w, g = _roll_want(want), _roll_got(o, want)
     for part, clause in (('loaded', 'loaded'), ('checked', 'live_check'), ('kind', 'outcome_kind'), ('cls', 'exception_class'),
                          ('args', 'do_if_no_n_arguments'), ('data', 'values'), ('rolls', 'roll_dates')):
@@ -303,6 +288,10 @@ def _roll_compare(o, want):
             if part == 'data' and w.get('data') and g.get('data') and w['data']['rows'] != g['data']['rows']:
                 return 'rows'
             return clause
+    if o['after']['data'] != o['data_before']:
+        return 'data_argument_changed'
+    if o['after']['chain'] != o['chain_before'] or o['after']['keys'] != o['keys_before']:
+        return 'chain_argument_changed'
     return None
 
 
@@ -374,3 +363,145 @@ def roll_s2c_sessions(ctx, hists):
         if k % 101 == 0:
             ctx.sample({'roll_session': {'world': hists[k]['w'], 'n': hists[k]['n'],
                                          'steps': [{f: s[f] for f in s if f not in ('call', 'want')} for s in hists[k]['hist']]}})
+
+
+# ---- C2S: random chains, calendars with holes, roll dates written by the caller, sessions through the code itself -------
+def rand_roll_world(rng):
+    """contracts that trade one after the other: per contract the days it has a row on (holes allowed), NaN prices, the
+    roll date the caller wrote (or none); roll-off points (min(roll date, last day)) do not go backwards along the chain"""
+    K = rng.choice([1, 2, 3, 4, 5, 6])
+    T = 36
+    days, rolls = [], []
+    start, prev_u = rng.randint(1, 4), 0
+    holes = rng.random() < 0.5
+    for i in range(K):
+        r = rng.random()
+        if r < 0.12:
+            days.append([]); rolls.append(0)          # a listed contract that never trades
+            continue
+        length = rng.randint(3, 14)
+        start = min(start, T)
+        end = max(min(T, start + length), prev_u + 1, start)
+        ds = list(range(start, end + 1))
+        if holes:
+            ds = [d for d in ds if d == end or rng.random() < 0.8]
+        days.append(ds)
+        if rng.random() < 0.35:
+            ro = rng.randint(max(prev_u, ds[0]), end + 2)
+            rolls.append(ro)
+            prev_u = min(ro, end)
+        else:
+            rolls.append(0)
+            prev_u = end
+        start = rng.randint(max(1, ds[0]), max(ds[0], end - 1)) + rng.choice([0, 1, 2])
+        if rng.random() < 0.15:
+            start = end + rng.choice([1, 2])          # a gap between two contracts
+    return {'days': days, 'rolls': rolls, 'T': T, 'nan': rng.random() < 0.3, 'none_kind': rng.choice([0, 1])}
+
+
+def roll_call_of(world, rng, now, n, data, rolls):
+    L = []
+    for i, ds in enumerate(world['days'], 1):
+        rows = [d for d in ds if d <= now]
+        vals = [(-1 if world['nan'] and (7 * i + d) % 11 == 0 and d != rows[-1] else 1000 * i + d) for d in rows]
+        L.append({'rows': rows, 'cols': [vals], 'none': 1 if (not rows and world['none_kind']) else 0})
+    with_data = bool(data['cols'])
+    cutoff = now - rng.choice([0, 1, 2, 2, 3, 5])
+    if with_data:
+        cutoff = max(cutoff, data['rows'][0])           # the kept part of the data is never empty
+    elif rng.random() < 0.15:
+        cutoff = 0                                      # cutoff = None
+    return {'L': L, 'rolls': rolls, 'now': now, 'expiry': now - rng.choice([0, 1, 3, 3, 6]), 'cutoff': cutoff, 'n': n, 'data': data,
+            'tr': rng.choice([0, 0, 1]), 'mark': rng.choice([0, 0, 1]), 'ifno': rng.choice(['no', 'no', 'no', 'raise', 'call']),
+            'check': rng.choice([1, 1, 1, 0])}
+
+
+def _roll_sessions_observe(chunk):
+    """each job: a world and a seed; a session of loads through the real code, feeding back what it returned"""
+    import random
+    out = []
+    for world, seed in chunk:
+        rng = random.Random(seed)
+        n = rng.choice([0, 0, 1, 2, 2, 3, 4])
+        now = rng.randint(3, 12)
+        data, rolls = {'rows': [], 'cols': []}, list(world['rolls'])
+        for step in range(rng.choice([1, 2, 3, 4])):
+            call = roll_call_of(world, rng, now, n, data, rolls)
+            if any(r and r < 0 for r in rolls) or call['expiry'] < 1 or (call['cutoff'] and call['cutoff'] < 1):
+                break
+            o, _ = x_roll.observe(call, sp=rng.randrange(8))
+            out.append(o)
+            if o['out']['kind'] != 'ok':
+                break
+            got = o['out']['data']
+            if 'labels' in got or 'type' in got or any(v < -1 for col in got['cols'] for v in col) or any(t <= 0 for t in got['rows']) \
+                    or any(a >= b for a, b in zip(got['rows'], got['rows'][1:])) or any(r < 0 for r in o['out']['rolls']):
+                break                                    # not a frame the next call can be given: the line above reports it
+            # the caller files what came back; sometimes he cuts the data, sometimes he goes back to his own chain
+            data = {'rows': list(got['rows']), 'cols': [list(c) for c in got['cols']]}
+            if call['tr'] or call['mark']:
+                data = {'rows': [], 'cols': []}          # (marked / transformed values are not prices to continue from)
+            if data['rows'] and rng.random() < 0.3:
+                k = rng.randrange(len(data['rows']))
+                if rng.random() < 0.5:
+                    data = {'rows': data['rows'][:k + 1], 'cols': [c[:k + 1] for c in data['cols']]}
+                else:
+                    data = {'rows': data['rows'][k:], 'cols': [c[k:] for c in data['cols']]}
+            rolls = list(o['out']['rolls']) if rng.random() < 0.7 else list(world['rolls'])
+            now = now + rng.choice([0, 1, 1, 2, 3, 7])
+            if now > world['T']:
+                break
+    return out
+
+
+def roll_c2s(ctx, nworlds):
+    jobs = [(rand_roll_world(ctx.rng), ctx.rng.randrange(2 ** 30)) for _ in range(nworlds)]
+    obs = pmap(_roll_sessions_observe, jobs, chunk=40)
+    ctx.evals += len(obs)
+    bad = ctx.validate('Trace_Roll', obs)
+    for i, clause in bad:
+        o = obs[i - 1]
+        if clause == 'malformed_observation':
+            raise Machinery('Trace_Roll: line %d is outside the domain of the law: %s' % (i, json.dumps(o['call'])[:800]))
+        ctx.violation(clause, _roll_case(o['call'], 'c2s'), {'observed': o['out'], 'loaded': o['loaded'], 'checked': o['checked'], 'after': o['after']})
+    for o in obs:
+        if o['out']['kind'] == 'ok' and len(o['loaded']) >= 2:
+            ctx.note(('roll-c2s', _roll_key(o['call'])))
+    ctx.sample({'roll_c2s_observation': {k: obs[len(obs) // 2][k] for k in ('call', 'out', 'loaded', 'checked')}})
+    return obs
+
+
+def run(ctx):
+    q = ctx.quick
+    ctx.rule = ('interpolate: S2C = every TLC case (curve x point x fill policy, matrix / frame / dated forms) inside the float-exact '
+                'domain replayed in two spellings (one with the knots permuted and assume_sorted = False), == with the expected object; '
+                'C2S = random curves (<= 7 knots, <= 5 rows, all forms) judged by Trace_Curve.  df_roll_off: S2C = single calls and '
+                'caller sessions (loads at moving clocks feeding back data and chain, truncations) generated by TLC, == on loader log, '
+                'live_check log, outcome, data and pinned roll dates; C2S = random chains with calendar holes / NaN / caller roll dates in '
+                'sessions through the code itself, judged by Trace_Roll.  Non-trivial = a finite interpolated value / >= 2 contracts loaded / >= 3 loads.')
+    # ---- X03-a
+    r = ctx.mc('MC_Curve', 'MC_Curve_quick.cfg' if q else 'MC_Curve_thorough.cfg', coverage=False)
+    if r.generated != r.distinct or r.distinct % 2:
+        raise Machinery('MC_Curve: not every case was evaluated (%d generated, %d distinct)' % (r.generated, r.distinct))
+    pts = ctx.generate('MC_Curve', 'MC_Curve_gen_pt.cfg' if q else 'MC_Curve_gen_pt_wide.cfg')
+    curve_s2c(ctx, pts, limit=8000 if q else None)
+    curve_s2c(ctx, ctx.generate('MC_Curve', 'MC_Curve_gen_forms.cfg' if q else 'MC_Curve_gen_forms_wide.cfg'), limit=2500 if q else None)
+    curve_c2s(ctx, 2500 if q else 40000)
+    # ---- X03-b/c
+    ctx.mc('MC_RollCall', 'MC_RollCall_quick.cfg', coverage=False)
+    ctx.mc('MC_Roll', 'MC_Roll_quick.cfg' if q else 'MC_Roll_thorough.cfg', coverage=True if q else False)
+    # the reading of today's code (a contract whose data ends ON the cutoff counts as live) breaks the session law
+    ctx.mc('MC_Roll', 'MC_Roll_today.cfg', must_fail='SavedIsFresh', coverage=False)
+    roll_s2c_calls(ctx, ctx.generate('MC_RollCall', 'MC_RollCall_gen.cfg'))
+    if not q:
+        roll_s2c_calls(ctx, ctx.generate('MC_RollCall', 'MC_RollCall_gen_empty.cfg'))
+        roll_s2c_sessions(ctx, ctx.generate('MC_Roll', 'MC_Roll_gen3.cfg'))
+    roll_s2c_sessions(ctx, ctx.generate('MC_Roll', 'MC_Roll_gen.cfg', simulate=250 if q else 4000, depth=7, seed=ctx.seed + 1, workers=1))
+    roll_c2s(ctx, 500 if q else 8000)
+    ctx.exhaustive = False
+    ctx.assumptions += [
+        'interpolate: floats cross the boundary exactly; the cases replayed lie in the domain FloatExact of spec/Curve.tla where scipy 1.x evaluates the chord without rounding (slope form for fill nan/bound, weight form for extrapolate)',
+        'interpolate: knots are finite and distinct (increasing unless assume_sorted = False); frames of values have >= 2 knot columns; maturities given as dates (years_to_maturity) and dated knots on other dates than the values (xmethod) are not covered',
+        'df_roll_off: the clock of the code is the wall clock (dt(0)); grid day k of a call with clock `now` is rendered as today + (k - now) days - a run across midnight between rendering and the call would be off by one',
+        'df_roll_off: chains are chronological (roll-off points do not go backwards), a cutoff is given whenever data is given and the kept part of the data is not empty; loaders return pd.Series',
+        'small-scope: worlds of <= 4 contracts over <= 19 days in TLC, <= 6 contracts over 36 days in C2S']
